@@ -10,6 +10,7 @@ import json, os, re
 from ..ir import Program
 from .. import frontend, api, par, capcheck
 from . import capcommon
+from . import dest_common as dc
 
 VERIF = frontend.VERIF
 MIN_FILLS = 100
@@ -20,6 +21,42 @@ def worker(prog, key):
     fn = next(f for f in prog.allfuncs if f.name == name and f.mod["tu"] == tu)
     res, info = capcheck.analyse(fn, worker.roles.get(name, []), prog, worker.roles, want_kinds=("W", "S"))
     return dict(res=[x for x in res if x.get("zero_fill")], file=fn.file)
+
+
+MUST_EXCLUDE = {"handle_str_bos_overflow", "_wmemcpy_s_chk", "_wmemmove_s_chk", "safec_vsnprintf_s", "_wcsnorm_decompose_s_chk", "_wcsnorm_reorder_s_chk", "_wcsnorm_compose_s_chk"}
+
+
+def must_worker(prog, name):
+    return dc.explore(prog, name)
+
+
+def must_clear(ck, prog):
+    """third clause: on every success return of a string producer on which this call stored into dest, dest has been zeroed up to its declared
+    end since the last non-zero write (a memset / zero-only loop certified by the end clause, a full clearing, or a nested producer's own success)."""
+    names = [n for n in dc.anchored_writers(prog, "C03") if n not in MUST_EXCLUDE]
+    res, err = par.pmap(prog, must_worker, names)
+    for n, e in err.items():
+        ck.fail_broken("%s: internal error: %s" % (n, e.strip().splitlines()[-1]))
+    nsucc = 0
+    per = {}
+    for n in names:
+        r = res.get(n)
+        if not r or "outcomes" not in r:
+            if r and "budget" in r:
+                ck.fail_broken("path-state budget exceeded: " + r["budget"])
+            continue
+        base = api.base_name(n)
+        succ = [o for o in r["outcomes"] if o["err"] is False and o["wrote"] and not o["exempt"]]
+        nsucc += len(succ)
+        per[base] = dict(success_classes=len(succ), without_clearing=sum(1 for o in succ if not o["slack"]))
+        for o in succ:
+            if not o["slack"]:
+                ck.report("C08:success-without-slack-clearing:%s:ret=%s:%s" % (base, o["ret"], o["msg"]), "S-clear-on-every-success", "%s:%s" % (r["file"], o["line"]),
+                          "%s: a success return (%s) is reached after this call stored into dest without dest having been zeroed up to dest+dmax since the last non-zero store: "
+                          "old contents stay readable behind the result" % (base, o["ret"]), dict(path=o["path"]))
+    if nsucc < 60:
+        ck.fail_broken("must-clear clause: only %d success classes of string producers explored (< 60)" % nsucc)
+    return nsucc, per
 
 
 def run(ck):
@@ -64,8 +101,9 @@ def run(ck):
         ck.fail_broken("only %d slack-clearing writes found (< %d)" % (n, MIN_FILLS))
     if nstart < 80:
         ck.fail_broken("start clause decided for only %d slack-clearing writes (< 80 confirmed on the pinned tree)" % nstart)
+    nmust, mper = must_clear(ck, prog)
     fx = selftest(ck)
-    cov = dict(explanation="%d zeroing writes into caller buffers (memsets and zero-only loops) in %d functions: for %d the equality 'start offset + length == declared size' is entailed "
+    cov = dict(must_clear=dict(success_classes=nmust, functions=mper), explanation="%d zeroing writes into caller buffers (memsets and zero-only loops) in %d functions: for %d the equality 'start offset + length == declared size' is entailed "
                "from the loop invariants in both directions; %d lie in functions outside the reach of the domain (not claimed). Start clause: for %d of them it is decided that the clearing "
                "starts at the buffer start or not behind the end of something the function itself wrote (a store, or the element count returned by a converter/formatter); "
                "a start a constant distance behind every such write is reported, the rest (start computed from a value reloaded from memory) is not decided." % (n, len(fns), ok, nreach, nstart),
